@@ -71,6 +71,11 @@ func c06Menu() []injCall {
 		// votes by snapshot voters that reach the mempool earlier than (or without) their delivery
 		{Name: "CheckTx(vote V2 choice 0)", Check: t(vote("V2", 0, 0))},
 		{Name: "CheckTx(vote V1 choice 0)", Check: t(vote("V1", 0, 0))},
+		// every remaining query path (a read-only handler that scribbles on shared memory shows in the next EndBlock)
+		{Name: "Query(stakes/voting_power @0)", Query: "stakes/voting_power", QKey: ""},
+		{Name: "Query(delegatee V3 @0)", Query: "delegatee", QKey: "V3"},
+		{Name: "Query(stakes V3 @0)", Query: "stakes", QKey: "V3"},
+		{Name: "Query(reward U0 @0)", Query: "reward", QKey: "U0"},
 	}
 }
 
@@ -108,7 +113,7 @@ func (c *c06) Meta() engine.Meta {
 		LevelName: "preemption bound P = number of injected CheckTx/Query calls",
 		Technique: "schedule exploration at ABCI-call granularity (all placements of up to P injected calls into the gaps between consensus calls) on the real application, twin oracle against the quiet replica",
 		Rule: "consensus thread: the dense 8-block history (staking, delegation, unstaking, proposal, votes, withdraw, transfers, contract deploy/call) in genesis variants g3 and g4L (4 equal validators, stake limiter live at 33%/33%); " +
-			"mempool/query thread: 30 calls (CheckTx of: a duplicate of the next / previous block transaction, staking to two delegatees, a new self-stake, three unstakings, proposal, a vote by a validator that votes only later, votes by two snapshot voters ahead of their delivery, withdraw by every account that earns rewards (1 and 2^255), transfer of the whole balance, setdoc, contract call, bad nonce, garbage; Query of account, delegatee, stakes, reward, proposal, gov_params, total power at height 0); " +
+			"mempool/query thread: 34 calls (CheckTx of: a duplicate of the next / previous block transaction, staking to two delegatees, a new self-stake, three unstakings, proposal, a vote by a validator that votes only later, votes by two snapshot voters ahead of their delivery, withdraw by every account that earns rewards (1 and 2^255), transfer of the whole balance, setdoc, contract call, bad nonce, garbage; Query of account, delegatee (2 keys), stakes (2 keys), reward (2 keys), proposal, gov_params, total power and voting power at height 0); " +
 			"a schedule places the injected calls into the gaps before/after BeginBlock, after each DeliverTx, after EndBlock and after Commit (Commit itself is one ABCI call and Tendermint holds the mempool lock across it). " +
 			"P<=1: every (gap, call) pair; P=2: every pair of placements drawn from the state-touching CheckTx entries (quick: within blocks 1-6, second call in the same or one of the next 3 gaps; thorough: all entries, all gaps, second call within the next 6 gaps). " +
 			"Oracle: every DeliverTx / EndBlock / Commit response of the loaded replica equals the quiet replica's; the complete committed state of EVERY height (all seven ledgers read through read-only accessors - the reward ledger enters the app hash only at every 10th height) equals the quiet replica's; after every Commit the mempool overlays of all seven ledgers are empty. " +
